@@ -2,6 +2,7 @@ package main
 
 import (
 	"fmt"
+	"go/token"
 	"go/types"
 	"sort"
 	"strings"
@@ -94,8 +95,52 @@ func (p *Prog) useTZFact(fs []Fact, want bool) bool {
 		if p.isUseTZValue(f.Cond, 0) && f.Truth == want {
 			return true
 		}
+		// `if err := requireTZ(useTZ, …); err != nil`: the error of a guard
+		// helper is nil exactly when its bool argument is true
+		if bo, ok := f.Cond.(*ssa.BinOp); ok && (bo.Op == token.EQL || bo.Op == token.NEQ) && isNilConst(bo.Y) {
+			if c, ok := bo.X.(*ssa.Call); ok {
+				if arg, ok := boolGuardArg(c); ok && p.isUseTZValue(arg, 0) {
+					if errIsNil := (bo.Op == token.EQL) == f.Truth; errIsNil == want {
+						return true
+					}
+				}
+			}
+		}
 	}
 	return false
+}
+
+// boolGuardArg: c calls a module function returning only an error that is nil
+// exactly on the paths where one of its bool parameters is true; the argument
+// passed for that parameter.
+func boolGuardArg(c *ssa.Call) (ssa.Value, bool) {
+	h := c.Call.StaticCallee()
+	if h == nil || !inModule(h) || h.Blocks == nil || h.Signature.Results().Len() != 1 || !isErrorType(h.Signature.Results().At(0).Type()) {
+		return nil, false
+	}
+	for i, q := range h.Params {
+		if b, ok := q.Type().Underlying().(*types.Basic); !ok || b.Kind() != types.Bool {
+			continue
+		}
+		good, n := true, 0
+		for _, r := range expandedReturns(h) {
+			n++
+			wantTrue := isNilConst(stripConv(r.Results[0]))
+			found := false
+			for _, f := range r.Facts {
+				if f.Cond == ssa.Value(q) && f.Truth == wantTrue {
+					found = true
+				}
+			}
+			if !found {
+				good = false
+			}
+		}
+		if good && n >= 2 && i < len(c.Call.Args) {
+			return c.Call.Args[i], true
+		}
+	}
+	return nil, false
 }
 
 // Tabled exception of R-ZONE(b).
